@@ -15,8 +15,10 @@ RULE = (
     "and label for label; distinct by hash of (table entries, string) / program text; non-trivial = at least one table entry matched"
 )
 ASSUMPTIONS = [
-    "table lines are HEX=text with an even number of hex digits; ':ignore' suffixes are not generated",
-    "strings contain no quote, backslash or newline; escapes are [0xN] / [0xNN] with value < 256",
+    "table lines are HEX=text or HEX:N=text (N parameter bytes follow the code when decoding) with an even number of hex digits; the decoder "
+    "round trip is judged for strings that match no entry with parameters",
+    "strings contain no newline and no backslash except in \\' (an escaped quote inside a quoted string: backslash and quote both stay characters "
+    "of the string); escapes are [0xN] / [0xNN] with value < 256",
     "the table in effect for .text is the one most recently loaded in the innermost enclosing scope that loaded one (source order)",
 ]
 
@@ -45,6 +47,16 @@ def gen_entries(rng: random.Random) -> list[tuple[bytes, str]]:
         out = []
         for i, t in enumerate(sorted(texts)):
             out.append((bytes([0xE0 + (i >> 8), i & 0xFF]) if i >= 200 else bytes([i]), t))
+        rng.shuffle(out)
+        return out
+    if rng.random() < 0.12:
+        # a script table: single letters plus bracketed control codes, some declared with a parameter count (`F0:1=[wait]`);
+        # the longest texts are then all control codes
+        letters = rng.sample(list("abcdehlowy !?"), rng.randint(2, 8))
+        ctrl = rng.sample(["[wait]", "[color]", "[end]", "[nl]", "[name]", "[pause]", "[item]"], rng.randint(1, 4))
+        out = [(bytes([0x20 + i]), t, 0) for i, t in enumerate(letters)]
+        for i, t in enumerate(ctrl):
+            out.append((bytes([0xF0 + i]), t, rng.choice([1, 1, 2, 0])))
         rng.shuffle(out)
         return out
     texts: list[str] = []
@@ -103,6 +115,14 @@ def gen_string(rng: random.Random, ref: RefTable) -> str:
     return "".join(out)
 
 
+def ser(entries) -> list:
+    return [[e[0].hex(), e[1]] + ([e[2]] if len(e) > 2 and e[2] else []) for e in entries]
+
+
+def deser(entries) -> list[tuple]:
+    return [(bytes.fromhex(e[0]), e[1], e[2] if len(e) > 2 else 0) for e in entries]
+
+
 def run_api(shard: dict, res: Res) -> None:
     from script import Table
 
@@ -115,9 +135,9 @@ def run_api(shard: dict, res: Res) -> None:
             try:
                 table = Table("t.tbl")
             except Exception as e:  # noqa: BLE001
-                res.violate("table-rejected", f"well-formed table rejected: {e!r}", {"kind": "api", "entries": [[c.hex(), t] for c, t in entries], "s": ""})
+                res.violate("table-rejected", f"well-formed table rejected: {e!r}", {"kind": "api", "entries": ser(entries), "s": ""})
                 continue
-        res.see("table_styles", (len(entries), max(len(t) for _, t in entries), max(len(c) for c, _ in entries), ref.codes_unique_prefix_free()))
+        res.see("table_styles", (len(entries), max(len(e[1]) for e in entries), max(len(e[0]) for e in entries), ref.codes_unique_prefix_free(), bool(ref.params)))
         for si in range(shard["strings"]):
             s = gen_string(rng, ref)
             check_pair(res, table, ref, entries, s)
@@ -129,7 +149,7 @@ def run_api(shard: dict, res: Res) -> None:
 
 
 def check_pair(res: Res, table, ref: RefTable, entries, s: str) -> None:
-    wit = {"kind": "api", "entries": [[c.hex(), t] for c, t in entries], "s": s}
+    wit = {"kind": "api", "entries": ser(entries), "s": s}
     try:
         toks = ref.tokens(s)
     except Unspecified:
@@ -137,7 +157,7 @@ def check_pair(res: Res, table, ref: RefTable, entries, s: str) -> None:
         res.count("unjudged_wide_escape")
         return
     matched = [v for k, v in toks if k == "entry"]
-    res.case((wit["entries"], s), nontrivial=bool(matched))
+    res.case((tuple(map(tuple, wit["entries"])), s), nontrivial=bool(matched))
     exp = ref.to_bytes(s)
     try:
         got = table.to_bytes(s)
@@ -148,7 +168,9 @@ def check_pair(res: Res, table, ref: RefTable, entries, s: str) -> None:
         res.violate("encoding", f"to_bytes({s!r}) = {got.hex()}, longest-match reference {exp.hex()}", wit)
         return
     res.count("encode_judged")
-    if ref.codes_unique_prefix_free() and not any(k == "esc" for k, _ in toks):
+    if ref.params:
+        res.count("encode_judged_with_parameter_entries")
+    if ref.codes_unique_prefix_free() and not any(k == "esc" for k, _ in toks) and not any(v in ref.params for v in matched):
         exp_text = "".join(matched)  # type: ignore[arg-type]
         try:
             back = table.to_text(got)
@@ -166,8 +188,10 @@ def gen_program(rng: random.Random) -> dict:
     ntab = rng.randint(1, 4)
     tables = {}
     for i in range(ntab):
-        ents = [(c, t) for c, t in gen_entries(rng) if "'" not in t]
-        tables[f"t{i}.tbl"] = [[c.hex(), t] for c, t in ents]
+        ents = [e for e in gen_entries(rng) if "'" not in e[1] and "\\" not in e[1]]
+        if rng.random() < 0.3:
+            ents.append((bytes([rng.randrange(256)]), "'"))       # written \' inside a quoted string
+        tables[f"t{i}.tbl"] = ser(ents)
     counter = [0]
 
     def body(depth: int, has_table: bool) -> list:
@@ -179,13 +203,17 @@ def gen_program(rng: random.Random) -> dict:
                 has_table = True
             elif c < 0.6:
                 counter[0] += 1
-                ref = RefTable([(bytes.fromhex(cc), t) for cc, t in tables[rng.choice(list(tables))]])
-                s = gen_string(rng, ref).replace("'", "")
+                ref = RefTable(deser(tables[rng.choice(list(tables))]))
+                s = gen_string(rng, ref).replace("\\", "")
+                if rng.random() < 0.7:
+                    s = s.replace("'", "")
+                elif rng.random() < 0.5:
+                    s += "'"                                          # the string ends with an escaped quote
                 out.append(["text", counter[0], s])
                 if rng.random() < 0.35:
                     # directly followed by further .text directives: each string is encoded on its own
                     for _ in range(rng.randint(1, 3)):
-                        parts = [t for t in ref.enc if t and "'" not in t]
+                        parts = [t for t in ref.enc if t and "'" not in t and "\\" not in t]
                         s2 = "".join(rng.choice(parts) for _ in range(rng.randint(1, 4))) if parts else "a"
                         out.append(["rawtext", 0, s2])
             elif c < 0.9 and depth < 3:
@@ -200,6 +228,10 @@ def gen_program(rng: random.Random) -> dict:
     return {"tables": tables, "tree": body(0, False)}
 
 
+def quoted(s: str) -> str:
+    return s.replace("'", "\\'")
+
+
 def render_program(prog: dict) -> str:
     lines = ["*=0x008000"]
     macros: list[str] = []
@@ -212,7 +244,7 @@ def render_program(prog: dict) -> str:
             elif it[0] == "text":
                 n = it[1]
                 lines.append(f"{pad}s{n}:")
-                lines.append(f"{pad}.text '{it[2]}'")
+                lines.append(f"{pad}.text '{quoted(it[2])}'")
                 lines.append(f"{pad}e{n}:")
                 lines.append(f"{pad}.dl s{n}, e{n}")
             elif it[0] == "rawtext":
@@ -245,7 +277,7 @@ def render_program(prog: dict) -> str:
 
 
 def expected_bytes(prog: dict) -> bytes:
-    refs = {name: RefTable([(bytes.fromhex(c), t) for c, t in ents]) for name, ents in prog["tables"].items()}
+    refs = {name: RefTable(deser(ents)) for name, ents in prog["tables"].items()}
     out = bytearray()
     base = 0x008000
 
@@ -257,7 +289,7 @@ def expected_bytes(prog: dict) -> bytes:
             elif it[0] == "text":
                 name = next(t for t in reversed(table_stack) if t is not None)
                 start = base + len(out)
-                out.extend(refs[name].to_bytes(it[2]))
+                out.extend(refs[name].to_bytes(quoted(it[2])))     # the backslash of \' stays part of the string (a character of its own)
                 end = base + len(out)
                 out.extend(start.to_bytes(3, "little") + end.to_bytes(3, "little"))
             elif it[0] == "rawtext":
@@ -280,7 +312,7 @@ def expected_bytes(prog: dict) -> bytes:
 
 def check_program(res: Res, prog: dict) -> None:
     src = render_program(prog)
-    files = {name: render_table([(bytes.fromhex(c), t) for c, t in ents]) for name, ents in prog["tables"].items()}
+    files = {name: render_table(deser(ents)) for name, ents in prog["tables"].items()}
     wit = {"kind": "prog", "prog": prog, "src": src}
     try:
         exp = expected_bytes(prog)
@@ -341,7 +373,7 @@ def replay(w: dict) -> Res:
     if w["kind"] == "api":
         from script import Table
 
-        entries = [(bytes.fromhex(c), t) for c, t in w["entries"]]
+        entries = deser(w["entries"])
         with Scratch({"t.tbl": render_table(entries)}):
             table = Table("t.tbl")
         check_pair(res, table, RefTable(entries), entries, w["s"])
